@@ -15,22 +15,25 @@ Definition keys_ok (keys : kmap kent) (l : vlog) : Prop :=
             end.
 
 (* tokens of one level: lj = the level's part of the log, p = position where the level starts *)
-Definition tok_ok (lj : vlog) (p : nat) (ct : nat * bool) (saved : journal) : Prop :=
-  exists newer older, lj = newer ++ older /\ fst ct = p + length older /\ (snd ct = false -> saved = jof older).
+Definition tok_ok (lj : vlog) (p : nat) (c : nat) (saved : journal) : Prop :=
+  exists newer older, lj = newer ++ older /\ c = p + length older /\ saved = jof older.
 
-Definition mono (r : list (nat * bool)) : Prop :=
-  forall i j ci cj, i <= j -> nth_error r i = Some ci -> nth_error r j = Some cj -> fst ci <= fst cj.
+Definition mono (r : list nat) : Prop :=
+  forall i j ci cj, i <= j -> nth_error r i = Some ci -> nth_error r j = Some cj -> ci <= cj.
 
-Definition Rreg (lj : vlog) (p : nat) (r1 : list (nat * bool)) (r0 : list journal) : Prop :=
-  Forall2 (tok_ok lj p) r1 r0 /\ mono r1.
+(* the position is covered by lastCheckpoint *)
+Definition le_opt (c : nat) (lc : option nat) : Prop := exists cl, lc = Some cl /\ c <= cl.
 
-Fixpoint Rlev (l : vlog) (ps : list nat) (js : list journal) (b : journal)
-         (r1 : list (list (nat * bool))) (r0 : list (list journal)) : Prop :=
+Definition Rreg (lj : vlog) (p : nat) (lc : option nat) (r1 : list nat) (r0 : list journal) : Prop :=
+  Forall2 (tok_ok lj p) r1 r0 /\ mono r1 /\ (forall c, In c r1 -> le_opt c lc).
+
+Fixpoint Rlev (l : vlog) (ps : list nat) (js : list journal) (b : journal) (lc : option nat)
+         (r1 : list (list nat)) (r0 : list (list journal)) : Prop :=
   match ps, js with
-  | [], [] => b = jof l /\ Rreg l 0 (hd [] r1) (hd [] r0)
+  | [], [] => b = jof l /\ Rreg l 0 lc (hd [] r1) (hd [] r0)
   | p :: ps', j :: js' =>
       exists lj rest, l = lj ++ rest /\ length rest = p /\ j = jof lj /\
-                      Rreg lj p (hd [] r1) (hd [] r0) /\ Rlev rest ps' js' b (tl r1) (tl r0)
+                      Rreg lj p lc (hd [] r1) (hd [] r0) /\ Rlev rest ps' js' b lc (tl r1) (tl r0)
   | _, _ => False
   end.
 
@@ -40,41 +43,67 @@ Definition setTopJ (js : list journal) (j : journal) : list journal := match js 
 Definition setTopB (js : list journal) (b j : journal) : journal := match js with _ :: _ => b | [] => j end.
 Definition top_pos (ps : list nat) : nat := hd 0 ps.
 
-Lemma Rlev_len l ps js b r1 r0 : Rlev l ps js b r1 r0 -> length ps = length js.
+Lemma Rlev_len l ps js b lc r1 r0 : Rlev l ps js b lc r1 r0 -> length ps = length js.
 Proof.
   revert l js r1 r0. induction ps as [|p ps IH]; intros l [|j js] r1 r0 H; cbn in H; try contradiction; [reflexivity|].
   destruct H as (lj & rest & _ & _ & _ & _ & H). cbn [length]. f_equal. eapply IH. exact H.
 Qed.
 
-Lemma Rlev_all l ps js b r1 r0 : Rlev l ps js b r1 r0 -> concat js ++ b = jof l.
+Lemma Rlev_all l ps js b lc r1 r0 : Rlev l ps js b lc r1 r0 -> concat js ++ b = jof l.
 Proof.
   revert l js r1 r0. induction ps as [|p ps IH]; intros l [|j js] r1 r0 H; cbn in H; try contradiction.
   - destruct H as [H _]. cbn. exact H.
   - destruct H as (lj & rest & -> & _ & -> & _ & H). cbn [concat]. rewrite <- app_assoc, (IH _ _ _ _ H), jof_app. reflexivity.
 Qed.
 
+Lemma tok_bound lj p c saved : tok_ok lj p c saved -> c <= p + length lj.
+Proof. intros (newer & older & -> & -> & _). rewrite app_length. lia. Qed.
+
+Lemma Forall2_In_l {A B} (R : A -> B -> Prop) l1 l2 a : Forall2 R l1 l2 -> In a l1 -> exists b, R a b.
+Proof. intros F. induction F; intros []; [subst; eauto|auto]. Qed.
+
+(* lastCheckpoint may move as long as it still covers every position inside the log *)
+Lemma Rreg_lc lj p lc lc' r1 r0 :
+  Rreg lj p lc r1 r0 -> (forall c, c <= p + length lj -> le_opt c lc -> le_opt c lc') -> Rreg lj p lc' r1 r0.
+Proof.
+  intros (F & M & L) H. refine (conj F (conj M _)). intros c Hc. apply H; [|apply L; exact Hc].
+  destruct (Forall2_In_l _ _ _ _ F Hc) as (sv & T). eapply tok_bound. exact T.
+Qed.
+
+Lemma Rlev_lc l ps js b lc lc' r1 r0 :
+  Rlev l ps js b lc r1 r0 -> (forall c, c <= length l -> le_opt c lc -> le_opt c lc') -> Rlev l ps js b lc' r1 r0.
+Proof.
+  revert l js r1 r0. induction ps as [|p ps IH]; intros l [|j js] r1 r0 H Hc; cbn [Rlev] in *; try contradiction.
+  - destruct H as [Hb Hr]. split; [exact Hb|]. eapply Rreg_lc; [exact Hr|]. intros c Hl. apply Hc. cbn in Hl. exact Hl.
+  - destruct H as (lj & rest & El & Lr & Ej & Hr & H). exists lj, rest.
+    refine (conj El (conj Lr (conj Ej (conj _ _)))).
+    + eapply Rreg_lc; [exact Hr|]. intros c Hl. apply Hc. rewrite El, app_length. lia.
+    + apply IH; [exact H|]. intros c Hl. apply Hc. rewrite El, app_length. lia.
+Qed.
+
 (* the current level *)
-Lemma Rlev_top l ps js b r1 r0 :
-  Rlev l ps js b r1 r0 ->
+Lemma Rlev_top l ps js b lc r1 r0 :
+  Rlev l ps js b lc r1 r0 ->
   exists lj rest, l = lj ++ rest /\ length rest = top_pos ps /\ topJ js b = jof lj /\ lowerJ js b = jof rest /\
-    Rreg lj (top_pos ps) (hd [] r1) (hd [] r0) /\
-    (forall lj' r1' r0', Rreg lj' (top_pos ps) (hd [] r1') (hd [] r0') -> tl r1' = tl r1 -> tl r0' = tl r0 ->
-       Rlev (lj' ++ rest) ps (setTopJ js (jof lj')) (setTopB js b (jof lj')) r1' r0').
+    Rreg lj (top_pos ps) lc (hd [] r1) (hd [] r0) /\
+    (forall lj' lc' r1' r0', Rreg lj' (top_pos ps) lc' (hd [] r1') (hd [] r0') -> tl r1' = tl r1 -> tl r0' = tl r0 ->
+       (forall c, c <= length rest -> le_opt c lc -> le_opt c lc') ->
+       Rlev (lj' ++ rest) ps (setTopJ js (jof lj')) (setTopB js b (jof lj')) lc' r1' r0').
 Proof.
   intros H0. destruct ps as [|p ps]; destruct js as [|j js]; cbn [Rlev] in H0; try contradiction; revert H0.
   - intros [Hb Hr]. exists l, []. rewrite app_nil_r.
     refine (conj eq_refl (conj eq_refl (conj Hb (conj eq_refl (conj Hr _))))).
-    intros lj' r1' r0' Hg _ _. rewrite app_nil_r. cbn [setTopJ setTopB Rlev]. split; [reflexivity|exact Hg].
+    intros lj' lc' r1' r0' Hg _ _ _. rewrite app_nil_r. cbn [setTopJ setTopB Rlev]. split; [reflexivity|exact Hg].
   - intros (lj & rest & -> & Hl & -> & Hr & H). exists lj, rest. cbn [top_pos hd topJ lowerJ].
     refine (conj eq_refl (conj Hl (conj eq_refl (conj _ (conj Hr _))))).
     + eapply Rlev_all. exact H.
-    + intros lj' r1' r0' Hg E1 E0. cbn [setTopJ setTopB Rlev]. exists lj', rest. rewrite E1, E0.
-      refine (conj eq_refl (conj Hl (conj eq_refl (conj Hg H)))).
+    + intros lj' lc' r1' r0' Hg E1 E0 Hc. cbn [setTopJ setTopB Rlev]. exists lj', rest. rewrite E1, E0.
+      refine (conj eq_refl (conj Hl (conj eq_refl (conj Hg _)))). eapply Rlev_lc; [exact H|exact Hc].
 Qed.
 
 (* the base level (snapshot) *)
-Lemma Rlev_base l ps js b r1 r0 :
-  Rlev l ps js b r1 r0 ->
+Lemma Rlev_base l ps js b lc r1 r0 :
+  Rlev l ps js b lc r1 r0 ->
   exists pre rest, l = pre ++ rest /\ b = jof rest /\ length rest = match ps with [] => length l | _ => last ps 0 end.
 Proof.
   revert l js r1 r0. induction ps as [|p ps IH]; intros l [|j js] r1 r0 H; cbn [Rlev] in H; try contradiction.
@@ -87,8 +116,8 @@ Proof.
 Qed.
 
 (* the levels from the i-th (counted from the top) upwards *)
-Lemma Rlev_upto l ps js b r1 r0 i :
-  Rlev l ps js b r1 r0 -> i < length ps ->
+Lemma Rlev_upto l ps js b lc r1 r0 i :
+  Rlev l ps js b lc r1 r0 -> i < length ps ->
   exists li rest, l = li ++ rest /\ length rest = nth i ps 0 /\ concat (firstn (S i) js) = jof li.
 Proof.
   revert l ps js r1 r0. induction i as [|i IH]; intros l [|p ps] [|j js] r1 r0 H Hi; cbn [Rlev length] in *; try contradiction; try lia.
@@ -100,27 +129,16 @@ Proof.
 Qed.
 
 (* ---- token lemmas ---- *)
-Lemma Rreg_nil lj p : Rreg lj p [] [].
-Proof. split; [constructor|]. intros i j ci cj _ H. destruct i; discriminate. Qed.
-
-Lemma mono_ext (r r' : list (nat * bool)) : map fst r = map fst r' -> mono r -> mono r'.
-Proof.
-  intros E M i j ci cj Hij Hi Hj.
-  assert (G : forall n c, nth_error r' n = Some c -> exists c', nth_error r n = Some c' /\ fst c' = fst c).
-  { intros n c Hn. pose proof (map_nth_error fst _ _ Hn) as Hm. rewrite <- E in Hm.
-    rewrite nth_error_map in Hm. destruct (nth_error r n) as [c'|]; cbn in Hm; [|discriminate].
-    exists c'. split; [reflexivity|congruence]. }
-  destruct (G _ _ Hi) as (ci' & Hi' & Ei). destruct (G _ _ Hj) as (cj' & Hj' & Ej).
-  rewrite <- Ei, <- Ej. eapply M; eassumption.
-Qed.
+Lemma Rreg_nil lj p lc : Rreg lj p lc [] [].
+Proof. split; [constructor|]. split; [|intros c []]. intros i j ci cj _ H. destruct i; discriminate. Qed.
 
 Lemma Forall2_imp {A B} (R R' : A -> B -> Prop) l1 l2 :
   (forall a b, R a b -> R' a b) -> Forall2 R l1 l2 -> Forall2 R' l1 l2.
 Proof. intros H F. induction F; constructor; auto. Qed.
 
-Lemma Rreg_grow lj p r1 r0 pre : Rreg lj p r1 r0 -> Rreg (pre ++ lj) p r1 r0.
+Lemma Rreg_grow lj p lc r1 r0 pre : Rreg lj p lc r1 r0 -> Rreg (pre ++ lj) p lc r1 r0.
 Proof.
-  intros [F M]. split; [|exact M]. eapply Forall2_imp; [|exact F].
+  intros (F & M & L). refine (conj _ (conj M L)). eapply Forall2_imp; [|exact F].
   intros ct saved (newer & older & -> & Hc & Hs). exists (pre ++ newer), older. rewrite app_assoc. repeat split; assumption.
 Qed.
 
